@@ -54,7 +54,7 @@ def main():
             outs = run_pipeline(cmds, drv) if cmds else []
             stats, samples, disagree, oracle, errors = parse_driver_output(outs)
             # select-preparation leg: the daemon scenarios of qsend.c with a snapshot of the daemon's globals at every select
-            nsel = 400 if c.tier == "quick" else 8000
+            nsel = 240 if c.tier == "quick" else 8000
             selcmds = (["%s - < %s" % (hsel, replay_sel)] if replay_sel else
                        [] if c.replay else ["%s %d %d %d %d" % (hsel, nsel, c.seed, i, NCPU) for i in range(NCPU)])
             if selcmds:
